@@ -214,6 +214,12 @@ class PreprocessorData:
                 f"(this usually happens after a 'reserve' or 'segment' that isn't 2*w-aligned).",
             )
         ops_to_pad = (-self.curr_address // op_size) % ops_alignment
+        if self.curr_address + ops_to_pad * op_size > (1 << self.memory_width):
+            macro_resolve_error(
+                self.curr_tree,
+                f"'pad {ops_alignment}' at address {self.curr_address} needs {ops_to_pad} padding ops, "
+                f"which exceeds the {self.memory_width}-bits memory-width.",
+            )
         self.curr_address += ops_to_pad * op_size
         self.result_ops.append(Padding(ops_to_pad))
 
